@@ -39,9 +39,10 @@ def parseEv (j : J) : Except String Ev := do
   | [t, s, o] => pure { tid := ← t.asNat, site := ← parseSite (← s.asStr), timeout := (← o.asNat) ≠ 0 }
   | _ => throw "trace entry must be [tid, site, timeout]"
 
-/-- user program items: 0 = `yield False`, 1 = `yield 0`, 2+v = `schedule(v)` inside the slice -/
+/-- user program items: 0 = `yield False`, 1 = `yield 0`, 2 = `callLater(f)`, 3+v = `schedule(v)` inside the slice -/
 def parseBools (j : J) : Except String (List UItem) := do
-  (← j.asNats).mapM fun n => pure (if n = 0 then UItem.yieldF else if n = 1 then UItem.yield0 else UItem.sched (n - 2))
+  (← j.asNats).mapM fun n => pure (if n = 0 then UItem.yieldF else if n = 1 then UItem.yield0
+    else if n = 2 then UItem.callLater else UItem.sched (n - 3))
 
 /-- structural description of a task, independent of allocation order -/
 def descTask (s : State) (fuel : Nat) (t : TaskId) : String :=
